@@ -49,7 +49,7 @@ func run(r *core.Run) {
 	}
 	defer w.Close()
 	MaxValueBits = int64(core.Pick(r, 1<<26, 1<<28))
-	r.Rule("every value of every tree: (a) all decoder-DSL programs with <= N ops (dsl_max_ops), nesting <= 3, decoded at the jq level (decode(\"vdsl\"; {prog}) for programs with <= 2 ops, the function _decode/2 it ends in for larger ones) on 2 inputs, and programs with <= N-1 ops also from tobytes[1:], from tobits[3:] and with a root array; (b) every corpus file x {probe, -d formats of its fqtests} x {intact, prefixes len-1, len/2, start of last top level field} (quick: files <= 256 KiB, trees <= 20000 values, values <= 8 MiB; larger ones counted in trees_skipped_by_size): tobits/tobytes/._bits/._bytes read bit exact against the harness' slice of the value's buffer, 7 bits_format renderings of every raw leaf decoded back, raw stdout of the CLI; non-trivial = tree with a value that is not byte aligned or lives in a nested buffer")
+	r.Rule("every value of every tree: (a) all decoder-DSL programs with <= N ops (dsl_max_ops), nesting <= 3, decoded at the jq level (decode(\"vdsl\"; {prog}) for programs with <= 2 ops, the function _decode/2 it ends in for larger ones) on 2 inputs, and programs with <= N-1 ops also from tobytes[1:], from tobits[3:] and with a root array; (b) every corpus file x {probe, -d formats of its fqtests} x {intact, prefixes len-1, len/2, start of last top level field} (quick: files <= 256 KiB, trees <= 20000 values, values <= 8 MiB; thorough: all files, more truncations, trees <= 250000 values, values <= 32 MiB; larger ones counted in trees_skipped_by_size): tobits/tobytes/._bits/._bytes read bit exact against the harness' slice of the value's buffer, 7 bits_format renderings of every raw leaf decoded back, raw stdout of the CLI; non-trivial = tree with a value that is not byte aligned or lives in a nested buffer")
 	r.Assume("nested buffers of real formats are only known through fq itself: the nested root's own tobits is the buffer its children are checked against (contents of decompressed/reassembled data are C15's subject)")
 	r.Assume("decode/2 only adds option defaults before calling _decode/2 (pkg/interp/decode.jq): programs with more than 2 ops are decoded through _decode/2 directly because decode/2 costs ~2 ms per call in registry and option lookups")
 	r.Assume("a bits_format rendering of a range that is not a whole number of bytes may pad with zero bits on either side")
@@ -83,20 +83,25 @@ func run(r *core.Run) {
 			r.Sample(map[string]any{"tree": t.Case.String(), "values": st.Values - before.Values})
 		}
 	}
+	// shares of the time budget, so that an overloaded machine cuts every part's tail
+	// instead of starving the last part
+	span := r.Deadline.Sub(r.Start)
+	cliUntil := r.Start.Add(span * 15 / 100)
+	corpusUntil := r.Start.Add(span * 60 / 100)
 	if only == "" || only == "cli" {
-		if runCLI(r, 2, core.Pick(r, 1, 2), core.Pick(r, 1, 2)) {
+		if runCLI(r, cliUntil, 2, core.Pick(r, 1, 2), core.Pick(r, 1, 2)) {
 			r.Section("cli-dsl")
 		}
 	}
 	if only == "" || only == "corpus" {
-		o := CorpusOpts{MaxSize: int64(core.Pick(r, 1<<18, 0)), MaxValues: core.Pick(r, 20000, 0), More: r.Thorough()}
+		o := CorpusOpts{MaxSize: int64(core.Pick(r, 1<<18, 0)), MaxValues: core.Pick(r, 20000, 250000), More: r.Thorough()}
 		cli := func(t *Tree) {
 			judge(t)
 			if t.Case.Mut == "intact" {
 				corpusCLI(r, t)
 			}
 		}
-		if w.WalkCorpus(o, TopStarts, cli) {
+		if w.WalkCorpus(o, TopStarts, corpusUntil, cli) {
 			r.Section("corpus")
 		}
 	}
